@@ -1,9 +1,21 @@
 from check import run_diff_property
 
+def table_differs(o, i, m):
+    """the dynamic table's content is specified by RFC 7541 section 4.4 and the model's table has been proved to be exactly
+    that (C18.add_exact, exact_fit_kept, setMaxSize_bounded): an implementation whose table differs after the same
+    operations violates the property on this very input"""
+    if o.split(' ', 1)[0] not in ('hpenc', 'hpdec'):
+        return False
+    ti = [t for t in i.split(' ') if t.startswith('tab=')]
+    tm = [t for t in m.split(' ') if t.startswith('tab=')]
+    return bool(ti and tm and ti != tm and 'dead' not in ti[0] and 'dead' not in tm[0])
+
+
 CFG = dict(
     streams=[('hpack', 600, 12000)],
     oracle_ops={'hprt', 'hpfrag'},
     self_evident=lambda o, i: i.startswith('panic'),
+    spec_part=table_differs,
     rule=("(a) encoder operation sequences (fields with any bytes in names/values, repeated fields, fields larger than the table, "
           "sensitive fields, SetMaxDynamicTableSize / Limit schedules): every WriteField's bytes and the table compared with the "
           "model; (b) ORACLE round trip: the real decoder on the real encoder's output must return the same fields, order and "
